@@ -3,6 +3,7 @@ differences between model and implementation concern the property, the model-fre
 import mon_rns
 import mon_notif
 import mon_mint
+import mon_filetree
 
 BASE_TRUST = [
     "Lean 4.33 kernel; axioms limited to propext, Classical.choice, Quot.sound (audited per theorem with #print axioms)",
@@ -40,7 +41,28 @@ def mint_runs(tier, seed):
     return [{"profile": "mint", "args": ["mint", "-seed", str(seed * 100 + k), "-hist", "5", "-steps", "2000"]} for k in range(16)]
 
 
+def ft_runs(tier, seed):
+    if tier == "quick":
+        return [{"profile": "filetree", "args": ["filetree", "-seed", str(seed * 10 + k), "-hist", "5", "-steps", "300"]} for k in range(2)]
+    return [{"profile": "filetree", "args": ["filetree", "-seed", str(seed * 100 + k), "-hist", "10", "-steps", "700"]} for k in range(16)]
+
+
+FT_TRUST = BASE_TRUST + ["SHA-256 is re-implemented in Lean for execution only (Canine/Crypto/Sha256.lean); every theorem takes the hash as an arbitrary function",
+                         "encoding/json: access lists are compared as decoded map[string]string (decoded by the harness with the chain's own json.Unmarshal)"]
+
 PROPS = {
+    "C10": {
+        "runs": ft_runs, "replay_runs": replay_runs, "monitor": mon_filetree.c10,
+        "diff_relevant": lambda d: d["mod"] == "filetree",
+        "trusted_base": FT_TRUST,
+        "assumptions": ["ownership is the chain's own predicate H('o'+address+H(signer)) = entry.owner (hash collisions out of scope)", "signers are well-formed bech32 addresses"],
+    },
+    "C20": {
+        "runs": ft_runs, "replay_runs": replay_runs, "monitor": mon_filetree.c20,
+        "diff_relevant": lambda d: d["mod"] == "path" or (d["mod"] == "filetree" and "response" in d["fields"]),
+        "trusted_base": FT_TRUST,
+        "assumptions": ["domain: '/'-free segments, last segment non-empty (or the single empty segment); parent strings not ending in '/'", "distinctness is stated in collision-extraction form (no injectivity of SHA-256 is assumed)"],
+    },
     "C13": {
         "runs": mint_runs, "replay_runs": replay_runs, "monitor": mon_mint.c13,
         "diff_relevant": lambda d: d["mod"] == "mint",
